@@ -38,7 +38,7 @@ func init() {
 				return 2_000_000
 			}, Run: c13Sections,
 				Rule: "generated metadata sections as described in the property's quantifier",
-				Min: map[string]int64{"accepted": 20000, "rejected": 20000, "viewbox_chunk": 10000, "palette_chunk": 10000, "degenerate_viewbox_accepted": 50, "all_zero_viewbox": 200,
+				Min: map[string]int64{"accepted": 20000, "rejected": 20000, "viewbox_chunk": 10000, "palette_chunk": 10000, "degenerate_viewbox_accepted": 50, "all_zero_viewbox": 200, "repeated_chunk_identifiers": 50000,
 					"rejected_viewbox_inverted": 100, "rejected_viewbox_nonfinite": 100, "rejected_length": 1000, "rejected_unknown_mid": 100, "rejected_count": 100, "huge_opposite_sign_viewbox": 1000, "nonfinite_bound_position_0": 500, "nonfinite_bound_position_3": 500}},
 		},
 	})
@@ -182,6 +182,16 @@ func c13Sections(c *run.Ctx, idx uint64) {
 	r := c.Rng(idx)
 	var a gen.Asm
 	a.Magic()
+	if idx%16 == 9 {
+		// Chunk identifiers that repeat or come out of order, some chunks invalid in
+		// themselves: an invalid chunk is never redeemed by a later one; for valid
+		// ones the decoder's own reading (chunk by chunk, later entries override)
+		// is what both entry points must agree on.
+		a.MetadataRepeated(r)
+		c.Count("repeated_chunk_identifiers", 1)
+		c13Judge(c, a.B, "repeated identifiers")
+		return
+	}
 	f4 := func(f float32) uint32 { return math.Float32bits(f) >> 2 }
 	// chunk bodies, MIDs increasing
 	type chunk struct {
